@@ -1,5 +1,8 @@
 //! Compile-time half of C15: every public type is Send + Sync + 'static, and Freeze (no interior mutability outside of indirection).
 //! Built with the nightly toolchain (core::marker::Freeze is unstable). If vlib builds but this crate does not, C15 is violated.
+//! Built three times: tz-rs without features, with `alloc`, with `alloc` + `std` — the public types of every configuration
+//! must be shareable (C15-r9m2 relaxed the boxed error to `dyn Error` without `Send + Sync` in the alloc-only configuration).
+#![no_std]
 #![feature(freeze)]
 use core::marker::Freeze;
 
@@ -7,21 +10,18 @@ fn shared<T: Send + Sync + 'static>() {}
 fn frozen<T: Freeze>() {}
 
 macro_rules! all {
-    ($($t:ty),* $(,)?) => {
-        pub fn assert_all() {
+    ($name:ident: $($t:ty),* $(,)?) => {
+        pub fn $name() {
             $( shared::<$t>(); frozen::<$t>(); )*
         }
     };
 }
 
-all!(
+all!(assert_all:
     tz::UtcDateTime,
     tz::DateTime,
     tz::datetime::FoundDateTimeKind,
-    tz::datetime::FoundDateTimeList,
-    tz::TimeZone,
     tz::TimeZoneRef<'static>,
-    tz::TimeZoneSettings<'static>,
     tz::LocalTimeType,
     tz::timezone::Transition,
     tz::timezone::LeapSecond,
@@ -36,6 +36,13 @@ all!(
     tz::error::timezone::LocalTimeTypeError,
     tz::error::timezone::TimeZoneError,
     tz::error::timezone::TransitionRuleError,
+);
+
+#[cfg(feature = "alloc")]
+all!(assert_all_alloc:
+    tz::datetime::FoundDateTimeList,
+    tz::TimeZone,
+    tz::TimeZoneSettings<'static>,
     tz::error::parse::TzFileError,
     tz::error::parse::TzStringError,
     tz::error::parse::ParseDataError,
